@@ -53,7 +53,7 @@ func TestC14(t *testing.T) {
 		"file bytes are only compared for batch-free (time-based batch ids) and merge-free (map-order output) workloads with equal DataFileSize",
 		"each of the three runs is additionally compared with the reference map at every step")
 	defer finishProperty(st)
-	rapid.Check(t, func(t *rapid.T) { c14Run(t, st) })
+	checkCases(t, st, func(t *rapid.T) { c14Run(t, st) })
 }
 
 type c14Exec struct {
